@@ -58,5 +58,6 @@ impl Transaction {
 //@fn Transaction::sighash_bip143
 //@stubrest Transaction
 }
+//@prooffn SigHash::flag_values spec/sighash_table.rs @ src/transaction/sighash.rs
 } // verus!
 fn main() {}
